@@ -207,7 +207,10 @@ def instrument(ctx: "Ctx") -> None:
 
     def deliver_later(listener, packet):  # noqa: ANN001, ANN202
         prev = rec.via
-        rec.via = "own-listener" if listener is ov else f"{type(listener).__name__}-listener"
+        if listener is ov:
+            rec.via = "own-listener" + ("@TunnelEndpoint" if isinstance(ov.endpoint, TunnelEndpoint) else "")
+        else:
+            rec.via = f"{type(listener).__name__}-listener"
         try:
             orig_deliver(listener, packet)
         finally:
@@ -310,9 +313,8 @@ class WalkScenario(Scenario):
 
     def __init__(self, nut: str = "A") -> None:
         self.nut = nut
-        base = self.cls.__name__ + ("@TunnelEndpoint" if self.te else "")
-        self.name = f"{base}/{nut}"
-        self.label = base
+        self.name = f"{self.cls.__name__}{'@TunnelEndpoint' if self.te else ''}/{nut}"
+        self.label = self.cls.__name__
 
     def settings(self):  # noqa: ANN201
         return None
@@ -448,9 +450,8 @@ class TunnelScenario(Scenario):
     def __init__(self, nut: str, hops: int = 2, quick: bool = True) -> None:
         self.nut = nut
         self.hops = hops
-        base = self.cls.__name__ + ("@TunnelEndpoint" if self.te else "")
-        self.name = f"{base}/{nut}" + (f"/h{hops}" if hops != 2 else "")
-        self.label = base
+        self.name = f"{self.cls.__name__}{'@TunnelEndpoint' if self.te else ''}/{nut}" + (f"/h{hops}" if hops != 2 else "")
+        self.label = self.cls.__name__
         self.quick = quick
         self.path = {1: ["X"], 2: ["R", "X"], 3: ["R", "R2", "X"]}[hops]
 
@@ -827,7 +828,7 @@ def switch_off_peers(ctx: Ctx) -> None:
 def _outside_arrives(ctx: Ctx, transport) -> None:  # noqa: ANN001
     rec = ctx.rec
     prev = rec.via
-    rec.via = "outside-socket"
+    rec.via = "exit-socket"
     try:
         transport.protocol.datagram_received(BT_PAYLOAD, OUTSIDE)
     finally:
@@ -973,7 +974,7 @@ def run_one(scn_name: str, k: int, variant: str, seed: int, thorough: bool):  # 
                 f"({'+'.join(kinds_seen)}), reached via {via}; first: {items[:6]}")
         outside = [(t.local_addr, len(d), a) for t, d, a in loop.outside_log[rec.outside_mark:] if t.owner is nut]
         if outside:
-            add(f"reacts:{label}:via=exit-to-outside", f"after unload() returned the node still sent {len(outside)} "
+            add(f"reacts:{label}:via=exit-socket", f"after unload() returned the node still sent {len(outside)} "
                 f"datagrams to the Internet through its exit sockets: {outside[:3]}")
         if rec.probe_runs:
             for api in sorted(set(rec.probe_runs)):
@@ -1048,7 +1049,12 @@ class TMRun:
         # a replacement is known to be registered once its coroutine has logged its start
         for i, d in self.inst.items():
             if not d["registered"] and d.get("via_replace") and ("start", i) in self.log:
+                others = [o for o in self.active(d["name"]) if o != i]
                 d["registered"] = True
+                if others and self.shutdown_task is None:
+                    self.viol.append(("tm:active-name-accepted", f"the replacement coroutine for '{d['name']}' "
+                                      f"(instance {i}) was started although instance(s) {others} registered under "
+                                      f"that name are still active"))
         if self.shutdown_task is not None and self.shutdown_task.done() and self.shutdown_mark is None:
             self.shutdown_mark = len(self.log)
 
@@ -1292,6 +1298,9 @@ def run(ctx: core.Ctx) -> core.Report:
     # TaskManager alone
     prefixes = tm_prefixes(2)
     tm_res = core.pmap(tm_explore, [list(p) for p in prefixes], ctx.jobs, chunk=2)
+    for short in [(), *tm_prefixes(1)]:             # the sequences shorter than a prefix
+        v, obs = tm_run_sequence(list(short))
+        tm_res.append((1, 1, {key: (what, short) for key, what in v}))
     tm_execs = sum(r[0] for r in tm_res)
     tm_outcomes = sum(r[1] for r in tm_res)
     tm_v: dict = {}
